@@ -33,7 +33,7 @@ case("C01", "sub-clone-method", "HOLDS", [(E, "\tX = torch.clone(X)\n\tX[:, :, s
 INS_RET = "return torch.cat([X[:, :, :start], motif, X[:, :, start:]], dim=-1)"
 case("C01", "ins-swap-pieces", "VIOLATION", [(E, INS_RET, "return torch.cat([X[:, :, start:], motif, X[:, :, :start]], dim=-1)")], "R-LEN", "ersatz.insert")
 case("C01", "ins-overwrite", "VIOLATION", [(E, INS_RET, "return torch.cat([X[:, :, :start], motif, X[:, :, start+1:]], dim=-1)")], "R-LEN", "ersatz.insert")
-case("C01", "ins-no-neg-guard", "VIOLATION", [(E, "\tif start is not None:\n\t\tif start < 0 or start > (X.shape[-1] - motif.shape[-1]):\n\t\t\traise ValueError(\"Provided start falls off the end of the sequence\")\n\telse:\n\t\tstart = X.shape[-1] // 2\n", "\tif start is not None:\n\t\tif start > (X.shape[-1] - motif.shape[-1]):\n\t\t\traise ValueError(\"Provided start falls off the end of the sequence\")\n\telse:\n\t\tstart = X.shape[-1] // 2\n")], "R-GUARD", "ersatz.insert")
+case("C01", "ins-no-neg-guard", "VIOLATION", [(E, "\tif start is not None:\n\t\tif start < 0 or start > X.shape[-1]:\n\t\t\traise ValueError(\"Provided start falls off the end of the sequence\")\n\telse:\n\t\tstart = X.shape[-1] // 2\n", "\tif start is not None:\n\t\tif start > X.shape[-1]:\n\t\t\traise ValueError(\"Provided start falls off the end of the sequence\")\n\telse:\n\t\tstart = X.shape[-1] // 2\n")], "R-GUARD", "ersatz.insert")
 case("C01", "ins-local-names", "HOLDS", [(E, INS_RET, "left, right = X[:, :, :start], X[:, :, start:]\n\treturn torch.cat([left, motif, right], dim=-1)")], note="pieces through locals: composition rule must follow the locals or stay silent")
 DEL_G = "\tif end < 0 or end > X.shape[-1] or end <= start:"
 case("C01", "del-end-le", "VIOLATION", [(E, DEL_G, "\tif end < 0 or end > X.shape[-1] + 1 or end <= start:")], "R-GUARD", "ersatz.delete")
@@ -330,3 +330,8 @@ case("C01", "del-rejects-full-tail", "VIOLATION", [(E, DEL_G, "\tif end < 0 or e
 case("C01", "sub-rejects-full-length-motif", "VIOLATION", [(E, "\tif motif.shape[-1] > X.shape[-1]:\n\t\traise ValueError(\"Motif cannot be longer than sequence.\")", "\tif motif.shape[-1] >= X.shape[-1]:\n\t\traise ValueError(\"Motif cannot be longer than sequence.\")")], "R-ACCEPT", "ersatz.substitute")
 case("C01", "multi-rejects-zero-spacing", "VIOLATION", [(E, "if l < 0 or l >= X.shape[-1]:", "if l <= 0 or l >= X.shape[-1]:")], "R-ACCEPT", "ersatz.multisubstitute")
 case("C01", "rand-n-plus-one", "VIOLATION", [(E, "\tX_rands = []\n\tfor i in range(n):\n\t\tsubstitute_ohe", "\tX_rands = []\n\tfor i in range(n + 1):\n\t\tsubstitute_ohe")], "R-AXES", "ersatz.randomize")
+CACHE_OLD = "\t_smallest, _score_to_pvals = _all_pwm_to_mapping(motif_pwms, motif_lengths, \n\t\tbin_size)\n"
+case("C12", "cache-names-only-key", "VIOLATION", [(FI, "@numba.njit(cache=True)\ndef _fast_convert", "_MAPPING_CACHE = {}\n\n\n@numba.njit(cache=True)\ndef _fast_convert"), (FI, CACHE_OLD, "\tkey = tuple(motif_names), tuple(motif_lengths), bin_size\n\tif key not in _MAPPING_CACHE:\n\t\t_MAPPING_CACHE[key] = _all_pwm_to_mapping(motif_pwms, motif_lengths, \n\t\t\tbin_size)\n\t_smallest, _score_to_pvals = _MAPPING_CACHE[key]\n")], "STATE")
+case("C12", "cache-complete-key", "HOLDS", [(FI, "@numba.njit(cache=True)\ndef _fast_convert", "_MAPPING_CACHE = {}\n\n\n@numba.njit(cache=True)\ndef _fast_convert"), (FI, CACHE_OLD, "\tkey = motif_pwms.tobytes(), tuple(motif_lengths), bin_size, eps\n\tif key not in _MAPPING_CACHE:\n\t\t_MAPPING_CACHE[key] = _all_pwm_to_mapping(motif_pwms, motif_lengths, \n\t\t\tbin_size)\n\t_smallest, _score_to_pvals = _MAPPING_CACHE[key]\n")])
+case("C11", "dp-skip-flat-columns", "VIOLATION", [(FI, "\tfor i in range(1, l):\n\t\tfor j in range(largest - smallest + 1):\n\t\t\tlogpdf[j] = -numpy.inf\n", "\tfor i in range(1, l):\n\t\tif int_log_pwm[:, i].min() == int_log_pwm[:, i].max():\n\t\t\tcontinue\n\n\t\tfor j in range(largest - smallest + 1):\n\t\t\tlogpdf[j] = -numpy.inf\n")], "DP")
+case("C10", "ins-trim-per-insertion", "VIOLATION", [(V, "\t\t\tx = insert(x, v, start=j)\n\n\t\tif left == True:\n\t\t\tx = x[:, :, -X.shape[-1]:]\n\t\telse:\n\t\t\tx = x[:, :, :X.shape[-1]]\n", "\t\t\tx = insert(x, v, start=j)\n\n\t\t\tif left == True:\n\t\t\t\tx = x[:, :, -X.shape[-1]:]\n\t\t\telse:\n\t\t\t\tx = x[:, :, :X.shape[-1]]\n")], "R-SIB")
